@@ -152,6 +152,106 @@ def expected_dict(pairs):
     return {k: (vs[0] if len(vs) == 1 else vs) for k, vs in d.items()}
 
 
+# --------------------------------------------------------------------------------------
+# the Request layer inside a real WSGI call: the handler performs an ACCESS SEQUENCE on one request
+# (body reads before/after forms, forms twice, params ...), the body arrives with Content-Length or with
+# Transfer-Encoding: chunked and no Content-Length, through a stream that short-reads
+
+OPS_SEQS = [['F'], ['O'], ['A'], ['F', 'F'], ['B', 'F'], ['P1', 'F'], ['P3', 'F'], ['P0', 'F'], ['B', 'F', 'B'], ['F', 'B', 'F'],
+            ['B', 'O'], ['B', 'A'], ['P2', 'A'], ['Q', 'A'], ['A', 'F', 'O'], ['B', 'B', 'F'], ['P1', 'P1', 'O'],
+            ['F', 'P2', 'A'], ['O', 'B', 'O'], ['P999', 'F'], ['B', 'Q', 'A', 'F']]
+_APPS = {}
+
+
+def wsgi_app():
+    """one real application; its handler runs the access sequence in app.verif_ops on app.request"""
+    app = _APPS.get(core.REPO)
+    if app is not None:
+        return app
+    from ombott import Ombott
+    app = Ombott()
+    app.verif_ops, app.verif_outs = [], []
+
+    def handler():
+        rq, outs = app.request, app.verif_outs
+        for op in app.verif_ops:
+            if op == 'B':
+                outs.append(('B', rq.body.read()))
+            elif op[0] == 'P':
+                outs.append(('P', rq.body.read(int(op[1:]))))
+            elif op == 'F':
+                outs.append(('F', show_dict(rq.forms)))
+            elif op == 'O':
+                outs.append(('O', show_dict(rq.POST)))
+            elif op == 'A':
+                outs.append(('A', show_dict(rq.params)))
+            elif op == 'Q':
+                outs.append(('Q', show_dict(rq.query)))
+            else:
+                raise AssertionError(op)
+        return 'ok'
+    app.route('/f', method=['POST', 'PUT'], callback=handler)
+    _APPS[core.REPO] = app
+    return app
+
+
+def chunk_encode(body, cuts, upper=False, ext=b''):
+    """RFC 7230 4.1 chunked coding of `body`, chunk sizes from `cuts` (the rest in one last chunk)"""
+    out, pos = b'', 0
+    sizes = [c for c in cuts if c > 0]
+    while pos < len(body):
+        n = min(sizes.pop(0), len(body) - pos) if sizes else len(body) - pos
+        out += format(n, 'X' if upper else 'x').encode() + ext + b'\r\n' + body[pos:pos + n] + b'\r\n'
+        pos += n
+    return out + b'0\r\n\r\n'
+
+
+def run_form_request(body, qs, framing, sched, ops, cuts=(), ctype='application/x-www-form-urlencoded', method='POST'):
+    """-> (status, [(op, output)]) of one WSGI call of the real application"""
+    import io
+    app = wsgi_app()
+    wire = body if framing == 'cl' else chunk_encode(body, cuts)
+    st = core.SchedStream(wire, sched)
+    env = {'REQUEST_METHOD': method, 'PATH_INFO': '/f', 'SCRIPT_NAME': '', 'QUERY_STRING': qs,
+           'SERVER_NAME': 'verif', 'SERVER_PORT': '80', 'SERVER_PROTOCOL': 'HTTP/1.1',
+           'wsgi.input': st, 'wsgi.errors': io.StringIO(), 'wsgi.url_scheme': 'http', 'wsgi.version': (1, 0),
+           'wsgi.multithread': False, 'wsgi.multiprocess': False, 'wsgi.run_once': False}
+    if framing == 'cl':
+        env['CONTENT_LENGTH'] = str(len(body))
+    else:
+        env['HTTP_TRANSFER_ENCODING'] = 'chunked'        # and no CONTENT_LENGTH: content_length == -1
+    if ctype is not None:
+        env['CONTENT_TYPE'] = ctype
+    app.verif_ops, app.verif_outs = list(ops), []
+    started = []
+
+    def go():
+        out = app(env, lambda status, headers, exc_info=None: started.append(status))
+        b''.join(out)
+        close = getattr(out, 'close', None)
+        if close:
+            close()
+    try:
+        core.with_timeout(go, 3)
+        status = int(started[0].split()[0]) if started else None
+    except core.Hang:
+        HANGS[0] += 1
+        status = 'hang'
+    except Exception as e:  # noqa: catchall is on, nothing may escape
+        status = 'raised ' + type(e).__name__
+    return status, list(app.verif_outs)
+
+
+def gen_access(rng, body_len):
+    ops = list(rng.choice(OPS_SEQS)) if rng.random() < .7 else \
+        [rng.choice(['B', 'F', 'O', 'A', 'Q', 'P%d' % rng.choice([0, 1, 2, 5, max(0, body_len - 1), body_len, body_len + 3])])
+         for _ in range(rng.randint(1, 5))]
+    framing = rng.choice(['cl', 'chunked'])
+    sched = core.gen_sched(rng, body_len + 12)
+    cuts = [rng.choice([1, 2, 3, 5, 16, 40]) for _ in range(rng.randint(0, 6))]
+    return ops, framing, sched, cuts
+
+
 class C18(Check):
     pid = 'C18'
     props_mod = 'OmbottModel.Props.C18'
@@ -305,6 +405,40 @@ class C18(Check):
             out.append((f'qs urlencodeq {show_pairs(pairs)}',
                         hs(urllib.parse.urlencode(pairs, quote_via=urllib.parse.quote)),
                         dict(kind='enc', text=str(pairs))))
+        # 7. the Request layer inside a WSGI call: access sequences x both framings x short reads
+        for _ in range(n // 2):
+            if spent():
+                break
+            if rng.random() < .75:
+                pairs = gen_pairs(rng)
+                body = urllib.parse.urlencode(pairs).encode('ascii')
+            else:
+                pairs = None
+                raw = gen_raw(rng)
+                try:
+                    body = raw.encode('latin1')
+                except UnicodeEncodeError:
+                    body = raw.encode('utf8')
+            qs = urllib.parse.urlencode(gen_pairs(rng)) if rng.random() < .4 else ''
+            ops, framing, sched, cuts = gen_access(rng, len(body))
+            status, outs = run_form_request(body, qs, framing, sched, ops, cuts)
+            bump('wsgi')
+            bump('wsgi_' + framing)
+            bump(f'wsgi_status_{status}')
+            if any(o[0] in 'BP' for o in ops[:-1]) and any(o in ('F', 'O', 'A') for o in ops[1:]):
+                bump('wsgi_body_read_before_forms')
+            sample = dict(kind='wsgi', pairs=pairs, body=body.decode('latin1'), qs=qs, framing=framing, sched=sched[:40],
+                          ops=ops, cuts=cuts)
+            k = 0
+            for op in ops:
+                got = outs[k][1] if k < len(outs) else f'status={status}'
+                k += 1
+                if op in ('F', 'O'):
+                    out.append((f'qs forms {hb(body)}', got, sample))
+                elif op == 'A':
+                    out.append((f'qs params {hs(qs)} {hb(body)}', got, sample))
+                elif op == 'Q':
+                    out.append((f'qs query {hs(qs)}', got, sample))
         return out
 
     # ------------------------------------------------------------------
@@ -345,6 +479,38 @@ class C18(Check):
         else:
             feat = 'plain'
         return f'roundtrip-{where}:{feat}'
+
+    def _oracle_wsgi(self, pairs, framing, sched, ops, cuts):
+        """the same pairs sent as an urlencoded body to a real application whose handler performs the access
+        sequence `ops`: every forms/POST/params answer is the sent pairs, every body read the sent bytes"""
+        body = urllib.parse.urlencode(pairs).encode('ascii')
+        status, outs = run_form_request(body, '', framing, list(sched), ops, cuts)
+        exp = sorted(show_dict(expected_dict(pairs))[3:].split(','))
+        seen_body = False
+        nforms = 0
+        for i, op in enumerate(ops):
+            if op in ('F', 'O', 'A'):
+                where = 'after-body-read' if seen_body else 'repeated' if nforms else 'first'
+                nforms += 1
+                if i >= len(outs):
+                    return (f'wsgi-forms:{framing}:{where}:status',
+                            f'{framing} body {body!r}, handler accesses {ops}: request answered {status} at access {i} ({op})')
+                got = outs[i][1]
+                if not got.startswith('ok ') or sorted(got[3:].split(',')) != exp:
+                    return (f'wsgi-forms:{framing}:{where}',
+                            f'{framing} body {body!r}, handler accesses {ops}: access {i} ({op}) gave {got!r}, '
+                            f'sent {list(pairs)!r}')
+            elif op == 'B' or op[0] == 'P':
+                seen_body = True
+                if i >= len(outs):
+                    return (f'wsgi-body:{framing}:status', f'{framing} body {body!r}, accesses {ops}: answered {status}')
+                want = body if op == 'B' else body[:int(op[1:])]
+                if outs[i][1] != want:
+                    return (f'wsgi-body:{framing}', f'{framing} body {body!r}, accesses {ops}: access {i} ({op}) read '
+                                                     f'{outs[i][1]!r}')
+        if status != 200:
+            return f'wsgi-status:{framing}', f'{framing} body {body!r}, accesses {ops}: status {status}'
+        return None
 
     def _oracle_total(self, qs):
         helpers, Request = self._mods()
@@ -390,13 +556,27 @@ class C18(Check):
             cases.append(('pairs', pairs, rng.choice(['quote_plus', 'quote'])))
         for _ in range(n // 2):
             cases.append(('raw', gen_raw(rng), None))
+        # the Request layer in a WSGI call: every access sequence x both framings x whole / one-byte / ragged reads
+        for s in seeds:
+            if s.get('kind') == 'wsgi' and s.get('pairs') is not None and all(k for k, _ in s['pairs']):
+                cases.append(('wsgi', [tuple(p) for p in s['pairs']], (s['framing'], s['sched'], s['ops'], s['cuts'])))
+        for p in named[:8] + [[('a', '1'), ('b', 'x y'), ('a', '2'), ('\xe9', '+&=%')]]:
+            for ops in OPS_SEQS:
+                for framing in ('cl', 'chunked'):
+                    for sched, cuts in (([], []), ([1] * 400, [1, 2]), ([3, 1, 2, 5, 1, 1, 4], [4, 1, 7])):
+                        cases.append(('wsgi', p, (framing, sched, ops, cuts)))
+        for _ in range(n // 3):
+            pairs = [(k, v) for k, v in gen_pairs(rng) if k]
+            ops, framing, sched, cuts = gen_access(rng, len(urllib.parse.urlencode(pairs)))
+            cases.append(('wsgi', pairs, (framing, sched, ops, cuts)))
         hangs = 0
         for kind, x, fl in cases:
             if hangs >= 4:           # one class of finding, and every further instance costs a watchdog period
                 break
             evals += 1
             try:
-                bad = self._oracle_pairs(x, fl) if kind == 'pairs' else self._oracle_total(x)
+                bad = (self._oracle_pairs(x, fl) if kind == 'pairs' else self._oracle_wsgi(x, *fl) if kind == 'wsgi'
+                       else self._oracle_total(x))
             except core.Hang:
                 bad = ('hang', f'does not terminate on {x!r}')
             except Exception as e:  # noqa
@@ -405,7 +585,7 @@ class C18(Check):
                 hangs += 1
             if bad:
                 findings.append(Finding(f'C18:{bad[0]}', bad[1], dict(kind=kind, value=x, flavour=fl)))
-        findings.sort(key=lambda f: len(repr(f.replay['value'])))      # report the smallest input of each class
+        findings.sort(key=lambda f: len(repr(f.replay['value'])) + len(repr(f.replay.get('flavour') or '')))      # report the smallest input of each class
         return evals, findings
 
     def replay(self, data):
@@ -415,6 +595,16 @@ class C18(Check):
         if not isinstance(i, dict):
             return dict(note='no input in this replay file (proof obligation): see "theorem" / "build_log" in it')
         helpers, Request = self._mods()
+        if i.get('kind') == 'wsgi' and 'value' not in i and i.get('pairs') is not None:   # a correspondence sample
+            i = dict(kind='wsgi', value=i['pairs'], flavour=(i['framing'], i['sched'], i['ops'], i['cuts']))
+        if i.get('kind') == 'wsgi' and 'value' in i:
+            pairs = [tuple(p) for p in i['value']]
+            framing, sched, ops, cuts = i['flavour']
+            body = urllib.parse.urlencode(pairs).encode('ascii')
+            status, outs = run_form_request(body, '', framing, list(sched), ops, cuts)
+            return dict(input=i, body=body.decode('ascii'), framing=framing, accesses=ops, status_now=status,
+                        outputs_now=[(o, v if isinstance(v, str) else v.decode('latin1')) for o, v in outs],
+                        expected=show_dict(expected_dict(pairs)), oracle=self._oracle_wsgi(pairs, framing, sched, ops, cuts))
         if 'value' not in i:                       # a correspondence sample
             if i.get('kind') == 'pairs':
                 i = dict(kind='pairs', value=i['pairs'], flavour='quote_plus', qs=i.get('qs'))
